@@ -529,6 +529,12 @@ impl std::fmt::Write for NullFmt {
     }
 }
 
+/// what a caller's log line does with a request, a response or a session: `{:?}`
+pub fn render_debug<T: std::fmt::Debug>(t: &T) {
+    use std::fmt::Write;
+    let _ = write!(NullFmt, "{:?}", t);
+}
+
 pub fn err_kind(e: &attohttpc::Error) -> String {
     // what callers do with an error first: print it (both ways), ask for its source
     {
@@ -741,6 +747,7 @@ pub fn caller_with(plan: &BodyPlan, stop_on_block: bool, tweak: impl FnOnce(atto
         }
     };
     o.status = resp.status().as_u16();
+    render_debug(&resp);
     read_body(plan, stop_on_block, resp, &mut o);
     if let Some((mut r, mut got)) = twin {
         let mut rest = Vec::new();
